@@ -144,7 +144,7 @@ def strsTok (l : List String) : String := if l.isEmpty then "-" else joinWith ",
 /-- reference property on the implementation's trace (literal values): ignoring the BeforeStop notification (7), the
 states never go down in rank (12 and 13 rank as 6); the Application is never shut down while the state is Upgrading (13)
 (the hot-upgrade hand-over runs in the upgrade handler, at 13, and nowhere else); `shutdown` precedes `close`. -/
-def smSpec (states calls : List String) : Bool :=
+def smSpec (flags acts states calls : List String) : Bool :=
   let rk (n : Int) : Int := if n == 12 || n == 13 then 6 else n
   let ns := (states.filterMap String.toInt?).filter (· != 7)
   let rec mono : List Int → Bool
@@ -154,7 +154,13 @@ def smSpec (states calls : List String) : Bool :=
     | [], _ => true
     | c :: r, closed => if c.startsWith "close" then order r true
                         else if c.startsWith "shutdown" then !closed && order r closed else order r closed
+  -- a SIGTERM / a successful upgrade of a started server shuts the Application down gracefully, at state 8
+  let started := !(flags.contains "initfail" || flags.contains "inhfail" || flags.contains "earlyterm" || flags.contains "earlyint")
+  let graceful := match acts.getLast? with
+    | some a => a == "term" || a == "upgok"
+    | none => false
   mono ns && !calls.contains "shutdown@13" && calls.all (fun c => !c.startsWith "upgrade@" || c == "upgrade@13") && order calls false
+    && (!(started && graceful) || calls.contains "shutdown@8")
 
 def sm (f a : String) (impl : List String) : String :=
   let flags := if f == "-" then [] else f.splitOn "+"
@@ -164,7 +170,8 @@ def sm (f a : String) (impl : List String) : String :=
     let m := smRun (smInit (flags.contains "fromupg")) (smEvents flags acts)
     let out := s!"{intsTok m.notes.reverse} {strsTok m.calls.reverse} {m.exit.getD 0}"
     verdict (s!"{states} {calls} {code}" == out)
-      (smSpec (if states == "-" then [] else states.splitOn ",") (if calls == "-" then [] else calls.splitOn ",")) out
+      (smSpec flags (if a == "-" then [] else a.splitOn ",") (if states == "-" then [] else states.splitOn ",")
+        (if calls == "-" then [] else calls.splitOn ",")) out
   | _, _ => "E E bad-case"
 
 /-! ### graceful stop of the in-process assembly -/
